@@ -724,6 +724,21 @@ def f_st(tier="quick", seed=0):
                                   "decl": decl, "exprs": exprs, "mapping": m, "extents": ext, "sizes": {},
                                   "tags": {"family": "st", "template": name, "slip": slip,
                                            "all_stamped": True, "styles": sorted(set(st.values()))}})
+    # cascades with a display on every Einsum; slip on the first / the second / both / neither
+    d = {"A": ["K", "M"], "B": ["K", "N"], "T": ["M", "N"], "Z": ["M"]}
+    ex = ["T[m, n] = A[k, m] * B[k, n]", "Z[m] = T[m, n]"]
+    for s1, s2 in ((False, False), (True, False), (False, True), (True, True)):
+        for sp in (["M"], []):
+            stT = {"space": sp, "time": [r for r in ["M", "N", "K"] if r not in sp]}
+            stZ = {"space": sp, "time": [r for r in ["M", "N"] if r not in sp]}
+            if s1:
+                stT["opt"] = "slip"
+            if s2:
+                stZ["opt"] = "slip"
+            specs.append({"name": "st/cascade/space=%s/slip=%d%d" % (",".join(sp), s1, s2), "decl": d, "exprs": ex,
+                          "mapping": {"loop-order": {"T": ["M", "N", "K"], "Z": ["M", "N"]}, "spacetime": {"T": stT, "Z": stZ}},
+                          "extents": {"K": 2, "M": 2, "N": 2}, "sizes": {},
+                          "tags": {"family": "st", "template": "cascade", "slip": s1 or s2, "all_stamped": True}})
     return specs
 
 
